@@ -137,7 +137,7 @@ def run_shard(job):
             import hypothesis
             from hypothesis import HealthCheck, Phase, given, settings
 
-            n = max(1, tgt.budget[tier] // nshards)
+            n = max(1, int(tgt.budget[tier] * float(os.environ.get("VERIF_SCALE", "1"))) // nshards)
             dseed = derive_seed(seed, pid, tname, shard)
             if mode == "collect":
 
@@ -296,6 +296,7 @@ def main(argv=None):
         return 2
     if args.target:
         targets = [t for t in targets if t.name in args.target]
+    os.environ["VERIF_SCALE"] = str(args.scale)
     if args.scale != 1:
         for t in targets:
             t.budget = {k: max(1, int(v * args.scale)) for k, v in t.budget.items()}
